@@ -3,6 +3,10 @@ import LeptosModel.Proofs.ViewTyping
 namespace Leptos.View
 open Leptos.Dom
 
+-- `R`: how the attribute list of an element relates to the fresh render's (`Eq` for the static
+-- fragment, lookup-equality `AttrsEq` where removal and re-insertion change the order)
+variable {R : List (String × String) → List (String × String) → Prop}
+
 mutual
 theorem AllEl.mono {P Q : List AttrVal → Prop} (h : ∀ as, P as → Q as) :
     ∀ (v : View), AllEl P v → AllEl Q v
